@@ -19,6 +19,7 @@ META = {
     "assumptions": ["MetaData wrappers are well-formed two-argument calls with a literal second argument"],
     "floor_evaluations": {"quick": 4000, "thorough": 40000},
     "floor_nontrivial": {"quick": 500, "thorough": 5000},
+    "threads": 3,
     "anchors": ["func_adl/ast/meta_data.py"],
 }
 HOSTILE = ["a'b", 'q"r', "back\\slash", "line\nbreak", "{x}", "lambda x: (", "'); import os; ('", "", "ünï", "\U0001F600"]
